@@ -696,7 +696,6 @@ class Elaborator:
         for b in nl.blocks:
             if b.kind not in ('comb', 'ff'):
                 continue
-            want = ast.MatMult if b.kind == 'comb' else ast.LShift
             other = ast.LShift if b.kind == 'comb' else ast.MatMult
             seen = []
             for n in walk_no_nested(b.node):
@@ -810,7 +809,8 @@ class _BEval(Evaluator):
                 if not 0 <= i < len(b):
                     raise ModelFault(f"index {i} out of range in `{norm(e)}` ({len(b)} elements)")
                 return b[i]
-            raise AnalysisError(f"{self.blk.qual}: subscript (bit slice?) outside the block model: {norm(e)}")
+            raise AnalysisError(f"{self.blk.qual}: subscript of a non-list used as an object (bit slice as a target or index "
+                                f"base?) is outside the block model: {norm(e)}")
         raise AnalysisError(f"{self.blk.qual}: expression outside the block model: {norm(e)}")
 
     def _val(self, o, e):
@@ -824,7 +824,32 @@ class _BEval(Evaluator):
 
     def ev_Name(self, e): return self._val(self.obj(e), e)
     def ev_Attribute(self, e): return self._val(self.obj(e), e)
-    def ev_Subscript(self, e): return self._val(self.obj(e), e)
+
+    def ev_Subscript(self, e):
+        base = self.obj(e.value) if isinstance(e.value, (ast.Name, ast.Attribute, ast.Subscript)) else self.ev(e.value)
+        if isinstance(base, list):
+            return self._val(self.obj(e), e)
+        v = self._val(base, e.value)
+        if not isinstance(v, BV):
+            raise AnalysisError(f"{self.blk.qual}: subscript outside the block model: {norm(e)}")
+        # bit index / bit slice of a Bits value (documented semantics: x[i] is bit i, x[a:b] are bits a..b-1)
+        def idx(x):
+            i = self.ev(x)
+            i = i.v if isinstance(i, BV) else i
+            if not isinstance(i, int) or isinstance(i, bool):
+                raise AnalysisError(f"{self.blk.qual}: bit index outside the block model: {norm(e)}")
+            return i
+        if isinstance(e.slice, ast.Slice):
+            if e.slice.step is not None or e.slice.lower is None or e.slice.upper is None:
+                raise AnalysisError(f"{self.blk.qual}: bit slice outside the block model: {norm(e)}")
+            lo, hi = idx(e.slice.lower), idx(e.slice.upper)
+            if not 0 <= lo < hi <= v.n:
+                raise ModelFault(f"bit slice [{lo}:{hi}] out of range for Bits{v.n} in `{norm(e)}`")
+            return BV(v.v >> lo, hi - lo)
+        i = idx(e.slice)
+        if not 0 <= i < v.n:
+            raise ModelFault(f"bit index {i} out of range for Bits{v.n} in `{norm(e)}`")
+        return BV((v.v >> i) & 1, 1)
 
     def ev_Constant(self, e):
         if isinstance(e.value, bool):
